@@ -29,7 +29,9 @@ func TestUpgraderExpectedPeer(t *testing.T) {
 	warm()
 	name := t.Name()
 	secLists := [][]string{{pNoise}, {pTLS}, {pNoise, pTLS}, {pTLS, pNoise}}
-	kinds := []string{"match", "match", "other"} // the client role requires a named peer
+	// the client role requires a named peer; "named" = a drawn non-empty byte string that is not the genuine
+	// ID (truncated / stray byte / corrupted multihash header / flipped bit / label / arbitrary bytes)
+	kinds := []string{"match", "match", "other", "named"}
 	hx.Check(t, 300, 20000, 0, func(rt *rapid.T) {
 		ta := rapid.SampledFrom(keys.Types).Draw(rt, "atype")
 		tb := rapid.SampledFrom(keys.Types).Draw(rt, "btype")
@@ -39,8 +41,17 @@ func TestUpgraderExpectedPeer(t *testing.T) {
 		// A is the multistream/security client, B the server (the roles are what the
 		// direction argument selects; either may be "the dialer" at transport level)
 		ka := rapid.SampledFrom(kinds).Draw(rt, "clientExpects")
-		kb := rapid.SampledFrom([]string{"match", "other", "other", "empty"}).Draw(rt, "serverExpects")
+		kb := rapid.SampledFrom([]string{"match", "other", "other", "empty", "named", "named"}).Draw(rt, "serverExpects")
 		ea, eb := expectID(ka, A, B, third), expectID(kb, B, A, third)
+		if ka == "named" {
+			ka = rapid.SampledFrom(namedKinds).Draw(rt, "clientClass")
+			ea = drawNamedID(rt, ka, B.ID, "client")
+		}
+		if kb == "named" {
+			kb = rapid.SampledFrom(namedKinds).Draw(rt, "serverClass")
+			eb = drawNamedID(rt, kb, A.ID, "server")
+		}
+		wrongA, wrongB := ea != "" && ea != B.ID, eb != "" && eb != A.ID
 		type res struct {
 			conn transport.CapableConn
 			err  error
@@ -83,7 +94,7 @@ func TestUpgraderExpectedPeer(t *testing.T) {
 			}
 			<-done
 			synctest.Wait()
-			cx := fmt.Sprintf("sec=%v client=%s(expects %s) server=%s(expects %s)", secs, ta, ka, tb, kb)
+			cx := fmt.Sprintf("sec=%v client=%s(expects %s %x) server=%s(expects %s %x)", secs, ta, ka, string(ea), tb, kb, string(eb))
 			judge := func(role string, r res, expect peer.ID, remote *keys.Identity) {
 				if r.conn == nil {
 					return
@@ -102,7 +113,7 @@ func TestUpgraderExpectedPeer(t *testing.T) {
 			}
 			judge("client", ra, ea, B)
 			judge("server", rb, eb, A)
-			if ka != "other" && kb != "other" && !noConverse {
+			if !wrongA && !wrongB && !noConverse {
 				if ra.conn == nil || rb.conn == nil {
 					rt.Fatalf("%s: honest baseline did not upgrade: client %v, server %v", cx, ra.err, rb.err)
 				}
@@ -123,7 +134,13 @@ func TestUpgraderExpectedPeer(t *testing.T) {
 			return "refused"
 		}
 		labels := []string{"sec:" + fmt.Sprint(secs), "client-expects:" + ka, "server-expects:" + kb, "client:" + out(ra), "server:" + out(rb)}
-		stats.Case(name, fmt.Sprintf("%v|%s|%s|%s|%s|%s", secs, ta, tb, tc, ka, kb), ka == "other" || kb == "other", labels...)
+		if wrongA {
+			labels = append(labels, "named-wrong:"+secs[0]+"/outbound/"+namedShape(ea))
+		}
+		if wrongB {
+			labels = append(labels, "named-wrong:"+secs[0]+"/inbound/"+namedShape(eb))
+		}
+		stats.Case(name, fmt.Sprintf("%v|%s|%s|%s|%s|%s|%x|%x", secs, ta, tb, tc, ka, kb, string(ea), string(eb)), wrongA || wrongB, labels...)
 		if stats.WantSample(name) {
 			stats.Sample(name, map[string]any{"sec": secs, "client": ta, "server": tb, "clientExpects": ka, "serverExpects": kb, "clientResult": out(ra), "serverResult": out(rb)})
 		}
